@@ -231,6 +231,9 @@ class Verifier(Stmts):
         raise Unsupported('str.lstrip')
     bm_bytes_startswith = bm_str_startswith; bm_bytes_endswith = bm_str_endswith
     def bm_str_encode(self, st, r, args, kw, node):
+        if args and not (z3.is_string_value(args[0].z) and args[0].z.as_string().lower().replace('-', '') == 'utf8'):
+            g = z3.Function('ENC_locale_replace', z3.StringSort(), sort_of(BYTES))       # some other codec: uninterpreted
+            return [(st, V(BYTES, g(r.z)))]
         f = z3.Function('utf8_encode', z3.StringSort(), sort_of(BYTES)); self.use_axiom('utf8')
         return [(st, V(BYTES, f(r.z)))]
     def bm_bytes_decode(self, st, r, args, kw, node):
